@@ -310,7 +310,7 @@ func (p *prop) run(mutex bool, init [][2]uint64, threads [][]op, sched []int) st
 				done[k] = true
 			}
 			return true
-		case <-time.After(10 * time.Second):
+		case <-time.After(120 * time.Second):
 			return false
 		}
 	}
